@@ -1,6 +1,8 @@
 import Pyunicorn.Lemmas.Net
 import Pyunicorn.Lemmas.NetPaths
 import Pyunicorn.Lemmas.NetAlg
+import Pyunicorn.Lemmas.NetCore
+import Pyunicorn.Generated.ArithC03
 /-!
 # C03 — Network measures equal their published definitions
 
@@ -812,6 +814,65 @@ theorem assortativity_eq_pearson (directed : Bool) (n : Nat) (a : Adj) :
     assortativity directed n a = pearsonSym (endDegrees directed n a) :=
   assortativity_eq_pearson' directed n a
 
+/-! ### coreness by peeling -/
+
+/-- **partial.**  Full statement: `coreness()[v] = c` iff `v` lies in the `c`-core (the largest node set
+all of whose induced degrees — in + out for directed networks — are `≥ c`) and not in the `(c+1)`-core.
+Proved here, for one level `k` of the peeling model `peel n a directed k fuel alive`:
+(i) it only removes nodes; (ii) it keeps every node set `S ⊆ alive` of minimum induced degree `≥ k`;
+(iii) if it stops at a fixpoint of the round it has itself minimum induced degree `≥ k` — hence it is
+the largest such set, the `k`-core inside `alive`.
+Missing: `fuel = n` always reaches the fixpoint (every non-final round removes a node), and the outer
+loop over `k` (`coreLoop`, fuel `2n+1`); `graph.coreness()` itself is igraph (compared on every run). -/
+theorem coreness_peel_partial (n : Nat) (a : Adj) (directed : Bool) (k fuel : Nat) (alive : List Bool) :
+    SubB (peel n a directed k fuel alive) alive ∧
+    (∀ S, MinDeg n a directed k S → SubB S alive → SubB S (peel n a directed k fuel alive)) ∧
+    (peelStep n a directed k (peel n a directed k fuel alive) = peel n a directed k fuel alive →
+      MinDeg n a directed k (peel n a directed k fuel alive)) :=
+  ⟨peel_sub n a directed k fuel alive,
+   fun S hS hsub => peel_keeps n a directed k S hS fuel alive hsub,
+   peelStep_fixpoint n a directed k _⟩
+
+/-! ### translator tie: the size expressions of the model are the ones in the current source
+(`Pyunicorn.Generated.ArithC03` is regenerated from `network.py` by `translate/gen_arith.py` on every run) -/
+
+open Pyunicorn.Generated in
+/-- the denominator of the model's `avgPathLength` is the source expression
+`self.N * (self.N - 1) - n_unconnected_pairs` -/
+theorem avgPathLength_den_tie (n ninf : Nat) :
+    (((n * (n - 1) : Nat) : Int) - (ninf : Int)) = ArithC03.aplDenominator n ninf := by
+  simp only [ArithC03.aplDenominator]
+  cases n with
+  | zero => simp
+  | succ m => simp only [Nat.add_sub_cancel]; push_cast; ring
+
+open Pyunicorn.Generated in
+/-- the pair count `N(N−1)` of the model's `globalEfficiency` is the source expression -/
+theorem globalEfficiency_pairs_tie (n : Nat) : ((n * (n - 1) : Nat) : Int) = ArithC03.effPairs n := by
+  have := avgPathLength_den_tie n 0
+  simpa [ArithC03.aplDenominator, ArithC03.effPairs] using this
+
+open Pyunicorn.Generated in
+/-- the model's `localVulnerability` applies the source expression
+`(global_efficiency - node_efficiency) / global_efficiency` to the two efficiencies -/
+theorem localVulnerability_tie (n : Nat) (a : Adj) (i : Nat) :
+    localVulnerability n a i =
+      (let E := globalEfficiency n (dist n a)
+       let Ei := globalEfficiency (n - 1) (dist (n - 1) (removeNode a i))
+       if E = 0 then none else some (ArithC03.vulnerabilityExpr E Ei)) := rfl
+
+open Pyunicorn.Generated in
+/-- the model's `matching` applies the source expression `commons / (kk + kk.T - commons)` -/
+theorem matching_tie (n : Nat) (a : Adj) (i j : Nat) :
+    matching n a i j =
+      (let c := mmul n (toN a) (toN a) i j
+       if ((outdeg n a i : Int) + (outdeg n a j : Int) - (c : Int)) = 0 then none
+       else some (ArithC03.matchingExpr c (outdeg n a i) (outdeg n a j))) := by
+  simp only [matching, ArithC03.matchingExpr]
+  split
+  · rfl
+  · simp [Rat.intCast_natCast]
+
 /-! ### non-vacuity: the hypotheses are satisfiable by non-trivial graphs and the counts are not 0 -/
 
 /-- the 5-clique as an adjacency predicate -/
@@ -841,6 +902,11 @@ example : assortativity false 5 p4iso = some (-1 / 2) := by decide +kernel
 example : assortativity false 5 k5 = none := by decide +kernel
 example : localVulnerability 5 p4iso 1 = some (8 / 13) := by decide +kernel
 example : nsiLocalClustering 5 k5 (fun _ => 1) 0 = 1 := by decide +kernel
+example : peel 5 p4iso false 2 5 (List.replicate 5 true) = [false, false, false, false, false]
+    ∧ peel 5 k5 false 4 5 (List.replicate 5 true) = [true, true, true, true, true] := by decide +kernel
+example : MinDeg 5 k5 false 4 (List.replicate 5 true) :=
+  peelStep_fixpoint 5 k5 false 4 _ (by decide +kernel)
+example : coreness 5 p4iso false = [1, 1, 1, 1, 0] := by decide +kernel
 example : avgPathLengthU 5 (dist 5 p4iso) = some (5 / 3) ∧ diameter 5 (dist 5 p4iso) = 3 := by decide +kernel
 
 end Pyunicorn.Net
